@@ -112,7 +112,7 @@ Proof.
   assert (Hfresh : ~ In (next s) (cancelled (log s))).
   { pose proof (fresh_zero limit s HI) as Hf. rewrite cnt_In. lia. }
   assert (Hnoop : LogOK (emit ENoop s)) by (apply logok_emit; auto; intros; discriminate).
-  destruct it as [[o|sc|sc f]|j0 [v| | |]|j0 r0]; cbn [step].
+  destruct it as [[o|sc|sc f]|j0 [v| | | |]|j0 r0]; cbn [step].
   1: destruct o as [|f|i| |i|j1 ok v]; cbn [step_sop].
   all: repeat match goal with |- context [if ?b then _ else _] => destruct b end; cbn [fst];
     try solve [apply logok_acquire; assumption | apply logok_release; assumption
@@ -202,3 +202,17 @@ Proof.
   - rewrite Ht. cbn. eexists. split; [reflexivity|]. rewrite ids_app. reflexivity.
 Qed.
 
+
+(** whatever the outcome of run j's function (value, exception, BaseException, failure or cancellation of the Deferred
+    it returned), the release follows the result at once *)
+Lemma fn_done_releases k j r s :
+  exists x y l, log (fst (fn_done k j r s)) = l ++ (ERelease j, y) :: (EFnDone j, x) :: log s.
+Proof.
+  unfold fn_done. set (s0 := emit (EFnDone j) s).
+  assert (Hl : log s0 = (EFnDone j, tokens s) :: log s) by reflexivity.
+  destruct (waiting s0) as [|[q c] w0] eqn:Hw.
+  - destruct (release_without_waiters k j s0 Hw) as (x & E & _).
+    destruct (do_release k j s0) as [s1 its]. cbn [fst] in *. exists (tokens s), x, []. rewrite E, Hl. reflexivity.
+  - destruct (release_grants_oldest k j s0 q c w0 Hw) as (x & y & E & _).
+    destruct (do_release k j s0) as [s1 its]. cbn [fst] in *. exists (tokens s), x, [(EGrant q, y)]. rewrite E, Hl. reflexivity.
+Qed.
